@@ -1,7 +1,8 @@
 (** Agreement between the model and the Gallina text that gen/rust2coq.py derives from TODAY'S Rust source
-    (build/gen/Translated.v, regenerated on every run).  Every proof is by conversion only: if a constant, an
-    operator or the order of operations changes in the source, these proofs stop checking, whether or not
-    any generated input reaches the difference. *)
+    (build/gen/Translated.v, regenerated on every run).  Every proof is by conversion only (the byte-builder
+    section at the end additionally rewrites with three wrap lemmas and does a few one-level case splits): if a
+    constant, an operator, a field width or the order of operations changes in the source, these proofs stop
+    checking, whether or not any generated input reaches the difference. *)
 From Coq Require Import NArith List.
 From Muxide Require Import Model.Base Model.Boxes.
 Require Import Translated.
@@ -110,3 +111,309 @@ Theorem ticks_to_ms_source_agrees : forall m ticks,
 Proof. intros. reflexivity. Qed.
 Print Assumptions hevc_nal_type_source_agrees.
 Print Assumptions ticks_to_ms_source_agrees.
+
+(** * Byte builders: the box builders re-derived statement by statement from today's source.
+    [<name>_src] (Translated.v) is the concatenation, in source order, of one term per Rust statement; the width
+    of every [to_be_bytes()], [<<] and [as] is the one written in the source.  Each theorem states that this is
+    the model's builder, for all arguments; where the model takes a record the statement is over its fields.
+    Proofs: conversion, after rewriting away the explicit wraps ([be32 (u32 x) = be32 x] etc.). *)
+
+(* big-endian encoders only see their argument modulo the field width *)
+Lemma mod_mul_mod256 x e : e <> 0 -> (x mod (256 * e)) mod 256 = x mod 256.
+Proof.
+  intro He. rewrite N.mod_mul_r by (exact He || discriminate).
+  rewrite (N.mul_comm 256), N.mod_add by discriminate. apply N.mod_mod. discriminate.
+Qed.
+Lemma div_mod_mul x c d : c <> 0 -> d <> 0 -> (x mod (c * d)) / c = (x / c) mod d.
+Proof.
+  intros Hc Hd. rewrite N.mod_mul_r by assumption.
+  rewrite (N.mul_comm c), N.div_add by assumption.
+  rewrite N.div_small by (apply N.mod_lt; assumption). reflexivity.
+Qed.
+Lemma byte_of_wrap x c e : c <> 0 -> e <> 0 -> (x mod (c * (256 * e)) / c) mod 256 = (x / c) mod 256.
+Proof.
+  intros Hc He. rewrite div_mod_mul; [apply mod_mul_mod256; exact He | exact Hc |].
+  destruct e; [contradiction | discriminate].
+Qed.
+Lemma be32_wrap x : be32 (u32 x) = be32 x.
+Proof.
+  unfold be32, u32.
+  change 4294967296 with (16777216 * (256 * 1)) at 1. rewrite byte_of_wrap by discriminate.
+  change 4294967296 with (65536 * (256 * 256)) at 1. rewrite byte_of_wrap by discriminate.
+  change 4294967296 with (256 * (256 * 65536)) at 1. rewrite byte_of_wrap by discriminate.
+  change 4294967296 with (256 * 16777216). rewrite mod_mul_mod256 by discriminate.
+  reflexivity.
+Qed.
+Lemma be16_wrap x : be16 (u16 x) = be16 x.
+Proof.
+  unfold be16, u16.
+  change 65536 with (256 * (256 * 1)) at 1. rewrite byte_of_wrap by discriminate.
+  change 65536 with (256 * 256). rewrite mod_mul_mod256 by discriminate.
+  reflexivity.
+Qed.
+(* [(x << 16).to_be_bytes()] on a u32: the model writes the 16.16 fixed-point value as [x * 65536] *)
+Lemma be32_shl16 x : be32 (u32 (N.shiftl x 16)) = be32 (x * 65536).
+Proof. rewrite be32_wrap, N.shiftl_mul_pow2. reflexivity. Qed.
+(* [channels.min(15) as u8]: the cast cannot lose bits *)
+Lemma u8_min15 x : u8 (N.min x 15) = N.min x 15.
+Proof. unfold u8. apply N.mod_small. apply N.le_lt_trans with 15; [apply N.le_min_r | reflexivity]. Qed.
+
+(** ** build_box itself (both copies) *)
+Theorem build_box_source_agrees : forall typ payload, build_box_src typ payload = build_box typ payload.
+Proof. intros. unfold build_box_src. rewrite be32_wrap. reflexivity. Qed.
+Theorem build_box_fmp4_source_agrees : forall typ payload, build_box_fmp4_src typ payload = build_box typ payload.
+Proof. intros. unfold build_box_fmp4_src. rewrite be32_wrap. reflexivity. Qed.
+(* INV-001, the [assert_invariant!] inside build_box (buffer.len() == 8 + payload.len()), as translated into
+   [build_box_src_pre]: it holds for every four-character type, so that call never panics *)
+Theorem build_box_invariant_source_holds : forall typ payload,
+  length typ = 4%nat -> build_box_src_pre typ payload = true.
+Proof.
+  intros typ payload H. unfold build_box_src_pre, len. rewrite !app_length, H. cbn [be32 length].
+  rewrite !Nat2N.inj_add, N.add_assoc. apply N.eqb_refl.
+Qed.
+Print Assumptions build_box_invariant_source_holds.
+Print Assumptions build_box_source_agrees.
+Print Assumptions build_box_fmp4_source_agrees.
+
+(** ** src/muxer/mp4.rs: constant boxes *)
+Theorem build_ftyp_box_source_agrees : build_ftyp_box_src = build_ftyp_box.
+Proof. reflexivity. Qed.
+Theorem build_vmhd_box_source_agrees : build_vmhd_box_src = build_vmhd_box.
+Proof. reflexivity. Qed.
+Theorem build_smhd_box_source_agrees : build_smhd_box_src = build_smhd_box.
+Proof. reflexivity. Qed.
+Theorem build_url_box_source_agrees : build_url_box_src = build_url_box.
+Proof. reflexivity. Qed.
+Theorem build_dref_box_source_agrees : build_dref_box_src = build_dref_box.
+Proof. reflexivity. Qed.
+Theorem build_dinf_box_source_agrees : build_dinf_box_src = build_dinf_box.
+Proof. reflexivity. Qed.
+Theorem build_hdlr_box_source_agrees : build_hdlr_box_src = build_hdlr_box.
+Proof. reflexivity. Qed.
+Theorem build_sound_hdlr_box_source_agrees : build_sound_hdlr_box_src = build_sound_hdlr_box.
+Proof. reflexivity. Qed.
+Theorem build_meta_hdlr_box_source_agrees : build_meta_hdlr_box_src = build_meta_hdlr_box.
+Proof. reflexivity. Qed.
+Print Assumptions build_ftyp_box_source_agrees.
+Print Assumptions build_vmhd_box_source_agrees.
+Print Assumptions build_smhd_box_source_agrees.
+Print Assumptions build_url_box_source_agrees.
+Print Assumptions build_dref_box_source_agrees.
+Print Assumptions build_dinf_box_source_agrees.
+Print Assumptions build_hdlr_box_source_agrees.
+Print Assumptions build_sound_hdlr_box_source_agrees.
+Print Assumptions build_meta_hdlr_box_source_agrees.
+
+(** ** src/muxer/mp4.rs: movie / track / media headers, stsc *)
+Theorem build_mvhd_payload_source_agrees : forall duration_ms next_track_id,
+  build_mvhd_payload_src duration_ms next_track_id = build_mvhd_payload duration_ms next_track_id.
+Proof. intros. reflexivity. Qed.
+
+Theorem build_tkhd_box_with_id_source_agrees : forall track_id volume width height,
+  build_tkhd_box_with_id_src track_id volume width height = build_tkhd_box_with_id track_id volume width height.
+Proof. intros. unfold build_tkhd_box_with_id_src. rewrite !be32_shl16. reflexivity. Qed.
+
+Theorem build_tkhd_box_source_agrees : forall v, build_tkhd_box_src (vt_width v) (vt_height v) = build_tkhd_box v.
+Proof. intros. apply build_tkhd_box_with_id_source_agrees. Qed.
+
+Theorem build_audio_tkhd_box_source_agrees : build_audio_tkhd_box_src = build_audio_tkhd_box.
+Proof. apply build_tkhd_box_with_id_source_agrees. Qed.
+
+(* build_mdhd_box_with_timescale_and_duration.  The function encode_language_code is a PARAMETER of the translation
+   (chars()/take(3)/collect over a &str is out of the translator's reach); its argument, language.unwrap_or("und"),
+   IS translated (language : option (UTF-8 bytes)).  The parameter is instantiated with the model's function, whose
+   packing expression is tied to the source by language_packing_source_agrees above. *)
+Theorem build_mdhd_box_source_agrees : forall timescale duration language,
+  build_mdhd_box_src timescale duration language (fun s => encode_language_code (utf8_chars s)) =
+  build_mdhd_box timescale duration language.
+Proof. intros. unfold build_mdhd_box_src. rewrite be32_wrap. reflexivity. Qed.
+
+Theorem build_stsc_box_source_agrees : forall samples_per_chunk chunk_count,
+  build_stsc_box_src samples_per_chunk chunk_count = build_stsc_box samples_per_chunk chunk_count.
+Proof. intros. reflexivity. Qed.
+Print Assumptions build_mvhd_payload_source_agrees.
+Print Assumptions build_tkhd_box_with_id_source_agrees.
+Print Assumptions build_tkhd_box_source_agrees.
+Print Assumptions build_audio_tkhd_box_source_agrees.
+Print Assumptions build_mdhd_box_source_agrees.
+Print Assumptions build_stsc_box_source_agrees.
+
+(** ** src/muxer/mp4.rs: sample entries *)
+Theorem build_vpcc_box_source_agrees : forall c,
+  build_vpcc_box_src (vp9_profile c) (vp9_bit_depth c) (vp9_color_space c) (vp9_transfer_function c)
+                     (vp9_matrix_coefficients c) (vp9_level c) (vp9_full_range_flag c) = build_vpcc_box c.
+Proof. intros. reflexivity. Qed.
+
+Theorem build_vp09_box_source_agrees : forall v c,
+  build_vp09_box_src (vt_width v) (vt_height v)
+                     (vp9_profile c) (vp9_bit_depth c) (vp9_color_space c) (vp9_transfer_function c)
+                     (vp9_matrix_coefficients c) (vp9_level c) (vp9_full_range_flag c) = build_vp09_box v c.
+Proof. intros. unfold build_vp09_box_src. rewrite !be16_wrap. reflexivity. Qed.
+
+Theorem build_av1c_box_source_agrees : forall c,
+  build_av1c_box_src (av1_sequence_header c) (av1_seq_profile c) (av1_seq_level_idx c) (av1_seq_tier c)
+                     (av1_high_bitdepth c) (av1_twelve_bit c) (av1_monochrome c)
+                     (av1_subsampling_x c) (av1_subsampling_y c) (av1_chroma_sample_position c) = build_av1c_box c.
+Proof. intros. reflexivity. Qed.
+
+Theorem build_av01_box_source_agrees : forall v c,
+  build_av01_box_src (vt_width v) (vt_height v)
+                     (av1_sequence_header c) (av1_seq_profile c) (av1_seq_level_idx c) (av1_seq_tier c)
+                     (av1_high_bitdepth c) (av1_twelve_bit c) (av1_monochrome c)
+                     (av1_subsampling_x c) (av1_subsampling_y c) (av1_chroma_sample_position c) = build_av01_box v c.
+Proof. intros. unfold build_av01_box_src. rewrite !be16_wrap. reflexivity. Qed.
+
+(* avcC: [if sps.len() >= 4 { (sps[1], sps[2], sps[3]) } else { (0x42, 0, 0x1e) }] is translated component-wise
+   with [nth]; the model matches on the list: case analysis on the first four cells *)
+Lemma len_ge4 (a b c d : N) t : (4 <=? len (a :: b :: c :: d :: t)) = true.
+Proof. apply N.leb_le. unfold len. cbn [length]. rewrite !Nat2N.inj_succ. rewrite <- !N.add_1_r, <- !N.add_assoc. apply N.le_add_l. Qed.
+
+Theorem build_avcc_box_source_agrees : forall c, build_avcc_box_src (avc_sps c) (avc_pps c) = build_avcc_box c.
+Proof.
+  intros [sps pps]. unfold build_avcc_box_src, build_avcc_box. cbn [avc_sps avc_pps]. rewrite !be16_wrap.
+  destruct sps as [|x0 [|x1 [|x2 [|x3 t]]]]; try reflexivity.
+  rewrite !len_ge4. reflexivity.
+Qed.
+
+Theorem build_avc1_box_source_agrees : forall v c,
+  build_avc1_box_src (vt_width v) (vt_height v) (avc_sps c) (avc_pps c) = build_avc1_box v c.
+Proof. intros. unfold build_avc1_box_src. rewrite !be16_wrap, build_avcc_box_source_agrees. reflexivity. Qed.
+
+(* hvcC: the four accessor methods of HevcConfig are parameters (only their declared return types are read) *)
+Theorem build_hvcc_box_source_agrees : forall c,
+  build_hvcc_box_src (hevc_vps c) (hevc_sps c) (hevc_pps c) (hevc_general_profile_space c) (hevc_general_tier_flag c)
+                     (hevc_general_profile_idc c) (hevc_general_level_idc c) = build_hvcc_box c.
+Proof. intros. unfold build_hvcc_box_src. rewrite !be16_wrap. reflexivity. Qed.
+
+Theorem build_hvc1_box_source_agrees : forall v c,
+  build_hvc1_box_src (vt_width v) (vt_height v)
+                     (hevc_vps c) (hevc_sps c) (hevc_pps c) (hevc_general_profile_space c) (hevc_general_tier_flag c)
+                     (hevc_general_profile_idc c) (hevc_general_level_idc c) = build_hvc1_box v c.
+Proof. intros. unfold build_hvc1_box_src. rewrite !be16_wrap, build_hvcc_box_source_agrees. reflexivity. Qed.
+
+(* the [assert_invariant!] conditions at the head of the four visual sample entry builders (the source panics when
+   one is false), as translated into [<name>_src_pre]: exactly the complement of the test with which the model's
+   [finalize] (Model/Writer.v) rejects the track before any box is built, so the builders never run outside them *)
+Theorem sample_entry_preconditions_source_agree : forall v,
+  let ok := negb ((U16MAX <? vt_width v) || (U16MAX <? vt_height v)) in
+  build_avc1_box_src_pre (vt_width v) (vt_height v) = ok /\
+  build_hvc1_box_src_pre (vt_width v) (vt_height v) = ok /\
+  build_av01_box_src_pre (vt_width v) (vt_height v) = ok /\
+  build_vp09_box_src_pre (vt_width v) (vt_height v) = ok.
+Proof.
+  intros v ok. subst ok.
+  unfold build_avc1_box_src_pre, build_hvc1_box_src_pre, build_av01_box_src_pre, build_vp09_box_src_pre, U16MAX.
+  rewrite !N.ltb_antisym, Bool.negb_orb, !Bool.negb_involutive. repeat split; reflexivity.
+Qed.
+
+Theorem build_audio_specific_config_source_agrees : forall sample_rate channels,
+  build_audio_specific_config_src sample_rate channels = build_audio_specific_config sample_rate channels.
+Proof. intros. unfold build_audio_specific_config_src. rewrite u8_min15. reflexivity. Qed.
+
+Theorem build_esds_box_source_agrees : forall a,
+  build_esds_box_src (at_sample_rate a) (at_channels a) = build_esds_box a.
+Proof.
+  intros. unfold build_esds_box_src, build_esds_box.
+  rewrite build_audio_specific_config_source_agrees. reflexivity.
+Qed.
+
+Theorem build_mp4a_box_source_agrees : forall a,
+  build_mp4a_box_src (at_sample_rate a) (at_channels a) = build_mp4a_box a.
+Proof.
+  intros. unfold build_mp4a_box_src. rewrite be32_shl16, build_esds_box_source_agrees. reflexivity.
+Qed.
+
+(* dOps: [OpusConfig::default().with_channels(audio.channels as u8)] is evaluated symbolically from the Default impl
+   and the method body in src/codec/opus.rs (pre_skip 312, 48000 Hz, gain 0, mapping family); the source tests
+   [family != 0], the model [family =? 0] with the branches swapped: one case split on [2 <? channels] *)
+Theorem build_dops_box_source_agrees : forall a, build_dops_box_src (at_channels a) = build_dops_box a.
+Proof. intros. unfold build_dops_box_src, build_dops_box. destruct (2 <? u8 (at_channels a)); reflexivity. Qed.
+
+Theorem build_opus_box_source_agrees : forall a, build_opus_box_src (at_channels a) = build_opus_box a.
+Proof. intros. unfold build_opus_box_src. rewrite build_dops_box_source_agrees. reflexivity. Qed.
+Print Assumptions build_vpcc_box_source_agrees.
+Print Assumptions build_vp09_box_source_agrees.
+Print Assumptions build_av1c_box_source_agrees.
+Print Assumptions build_av01_box_source_agrees.
+Print Assumptions build_avcc_box_source_agrees.
+Print Assumptions build_avc1_box_source_agrees.
+Print Assumptions build_hvcc_box_source_agrees.
+Print Assumptions build_hvc1_box_source_agrees.
+Print Assumptions sample_entry_preconditions_source_agree.
+Print Assumptions build_audio_specific_config_source_agrees.
+Print Assumptions build_esds_box_source_agrees.
+Print Assumptions build_mp4a_box_source_agrees.
+Print Assumptions build_dops_box_source_agrees.
+Print Assumptions build_opus_box_source_agrees.
+
+(** ** src/fragmented.rs: init segment boxes and the fixed moof pieces *)
+Theorem build_ftyp_fmp4_source_agrees : build_ftyp_fmp4_src = build_ftyp_fmp4.
+Proof. reflexivity. Qed.
+Theorem build_mvhd_fmp4_source_agrees : forall timescale, build_mvhd_fmp4_src timescale = build_mvhd_fmp4 timescale.
+Proof. intros. reflexivity. Qed.
+Theorem build_mvex_source_agrees : build_mvex_src = build_mvex.
+Proof. reflexivity. Qed.
+Theorem build_tkhd_fmp4_source_agrees : forall c, build_tkhd_fmp4_src (fc_width c) (fc_height c) = build_tkhd_fmp4 c.
+Proof. intros. unfold build_tkhd_fmp4_src. rewrite !be32_shl16. reflexivity. Qed.
+(* encode_language_code: a function parameter, as for build_mdhd_box; the model fixes language = None because the only
+   call site (build_mdia_fmp4) passes None *)
+Theorem build_mdhd_fmp4_source_agrees : forall timescale,
+  build_mdhd_fmp4_src timescale None (fun s => encode_language_code (utf8_chars s)) = build_mdhd_fmp4 timescale.
+Proof. intros. reflexivity. Qed.
+Theorem build_hdlr_video_source_agrees : build_hdlr_video_src = build_hdlr_video.
+Proof. reflexivity. Qed.
+Theorem build_vmhd_source_agrees : build_vmhd_src = build_vmhd.
+Proof. reflexivity. Qed.
+Theorem build_dinf_source_agrees : build_dinf_src = build_dinf.
+Proof. reflexivity. Qed.
+(* the model has no separate definitions for the four empty tables: they are inlined in build_stbl_fmp4 *)
+Theorem build_empty_tables_source_agree :
+  build_empty_stts_src = build_box T_stts (be32 0 ++ be32 0) /\
+  build_empty_stsc_src = build_box T_stsc (be32 0 ++ be32 0) /\
+  build_empty_stsz_src = build_box T_stsz (be32 0 ++ be32 0 ++ be32 0) /\
+  build_empty_stco_src = build_box T_stco (be32 0 ++ be32 0).
+Proof. repeat split; reflexivity. Qed.
+Theorem build_stbl_fmp4_source_agrees : forall c, build_stbl_fmp4_src (build_stsd_fmp4 c) = build_stbl_fmp4 c.
+Proof. intros. reflexivity. Qed.
+(* avcC of the init segment: [sps.get(i).copied().unwrap_or(d)] is [nth i sps d]; the model uses nth_error *)
+Theorem build_avcc_fmp4_source_agrees : forall c, build_avcc_fmp4_src (fc_sps c) (fc_pps c) = build_avcc_fmp4 c.
+Proof.
+  intros. unfold build_avcc_fmp4_src, build_avcc_fmp4, nth_or. rewrite !be16_wrap.
+  destruct (fc_sps c) as [|x0 [|x1 [|x2 [|x3 t]]]]; reflexivity.
+Qed.
+(* the four visual sample entries of the init segment: header from the source; the configuration record is the
+   translated avcC, resp. a parameter (hvcC / av1C / vpcC); in the model they are the branches of build_stsd_fmp4 *)
+Theorem fmp4_sample_entries_source_agree : forall c,
+  build_avc1_fmp4_src (fc_width c) (fc_height c) (fc_sps c) (fc_pps c) =
+    build_box T_avc1 (visual_entry_prefix_fmp4 c ++ build_avcc_fmp4 c) /\
+  build_hvc1_fmp4_src (fc_width c) (fc_height c) (build_hvcc_fmp4 c) =
+    build_box T_hvc1 (visual_entry_prefix_fmp4 c ++ build_hvcc_fmp4 c) /\
+  build_av01_fmp4_src (fc_width c) (fc_height c) (build_av1c_fmp4 c) =
+    build_box T_av01 (visual_entry_prefix_fmp4 c ++ build_av1c_fmp4 c) /\
+  build_vp09_fmp4_src (fc_width c) (fc_height c) (build_vpcc_fmp4 c) =
+    build_box T_vp09 (visual_entry_prefix_fmp4 c ++ build_vpcc_fmp4 c).
+Proof.
+  intros. unfold build_avc1_fmp4_src, build_hvc1_fmp4_src, build_av01_fmp4_src, build_vp09_fmp4_src.
+  rewrite !be16_wrap, build_avcc_fmp4_source_agrees. repeat split; reflexivity.
+Qed.
+Theorem build_mfhd_source_agrees : forall sequence_number, build_mfhd_src sequence_number = build_mfhd sequence_number.
+Proof. intros. reflexivity. Qed.
+Theorem build_tfhd_source_agrees : build_tfhd_src = build_tfhd.
+Proof. reflexivity. Qed.
+Theorem build_tfdt_source_agrees : forall base, build_tfdt_src base = build_tfdt base.
+Proof. intros. reflexivity. Qed.
+Print Assumptions build_ftyp_fmp4_source_agrees.
+Print Assumptions build_mvhd_fmp4_source_agrees.
+Print Assumptions build_mvex_source_agrees.
+Print Assumptions build_tkhd_fmp4_source_agrees.
+Print Assumptions build_mdhd_fmp4_source_agrees.
+Print Assumptions build_hdlr_video_source_agrees.
+Print Assumptions build_vmhd_source_agrees.
+Print Assumptions build_dinf_source_agrees.
+Print Assumptions build_empty_tables_source_agree.
+Print Assumptions build_stbl_fmp4_source_agrees.
+Print Assumptions build_avcc_fmp4_source_agrees.
+Print Assumptions fmp4_sample_entries_source_agree.
+Print Assumptions build_mfhd_source_agrees.
+Print Assumptions build_tfhd_source_agrees.
+Print Assumptions build_tfdt_source_agrees.
